@@ -113,7 +113,7 @@ def handleEnc (bs b0 lim mode term instrs src tgt terms memenc pairs ls ledges w
       let softOkB := wts != "-" && softOk I wl && orderOk I && thetasOk I
       match buildAll injRaws, buildAll ordRaws, buildAll (softs.map (·.1)) with
       | some injBuilt, some ordBuilt, some softBuilt =>
-        s!"ok {if instOk I && decide (1 ≤ I.bs) then 1 else 0} {if ws && (softs.map (·.1)).all F.ws then 1 else 0} {if injOk then 1 else 0} {if ordOk then 1 else 0} {if softOkB then 1 else 0}" ++ "\t" ++
+        s!"ok {if instOk I && decide (1 ≤ I.bs) && (emp != "1" || ((emptyF I).isSome && (allSVs I).all (fun x => x != .var "empty"))) then 1 else 0} {if ws && (softs.map (·.1)).all F.ws then 1 else 0} {if injOk then 1 else 0} {if ordOk then 1 else 0} {if softOkB then 1 else 0}" ++ "\t" ++
           "\t".intercalate (built.map showF ++ ["#inj"] ++ injBuilt.map showF ++ ["#order"] ++ ordBuilt.map showF ++ ["#soft"] ++
             (softBuilt.zip (softs.map (·.2))).map fun (f, w) => s!"{w}@" ++ showF f)
       | _, _, _ => "error:constructor-raises"
